@@ -197,9 +197,11 @@ URL_STR = Contract(id="URL.__str__", file=D, qualname="URL.__str__", inline=True
 URL_REPR = Contract(
     id="URL.__repr__", file=D, qualname="URL.__repr__", props=["C12", "C18"],
     params={"self": ObjT(D + ":URL", _url=Str, _components=SPLIT_T)}, returns=Str,
-    defs={"pw()": "self._components.password", "n()": "self._components.netloc",
-          "masked()": "not is_none(pw()) and pw() != ''"},
-    ufuncs={"geturl": ([Str, Str, Str, Str, Str], Str), "repr_str": ([Str], Str)},
+    defs=dict(R_DEFS, **{"pw()": "self._components.password", "n()": "self._components.netloc",
+                         "masked()": "not is_none(pw()) and pw() != ''"}),
+    # the SplitResult invariant (A-urlsplit), as for URL.replace: user name / password are the parts of the text before the last '@'
+    requires=list(URL_REPLACE.requires[:5]),
+    ufuncs={"geturl": ([Str, Str, Str, Str, Str], Str), "repr_str": ([Str], Str), "last_index_of": ([Str, Str], Int)},
     stubs={"self.components._replace": _replace_stub},
     stub_methods={("SplitResult", "geturl"): _geturl_method},
     frame_check=False,
